@@ -67,6 +67,9 @@ func nextStringArrayArguments(cmd string, name string, args Arguments) ([]string
 	if !errors.Is(err, proto.ErrEOM) {
 		return nil, newMissingArgumentError(cmd, name, err)
 	}
+	if len(strs) == 0 {
+		return nil, newMissingArgumentError(cmd, name, err)
+	}
 	return strs, nil
 }
 
@@ -78,13 +81,16 @@ func nextStringMapArguments(cmd string, args Arguments) (map[string]string, erro
 	for err == nil {
 		val, err = args.NextString()
 		if err != nil {
-			newMissingArgumentError(cmd, key, err)
+			return nil, newInvalidArgumentError(cmd, key, err)
 		}
 		dir[key] = val
 		key, err = args.NextString()
 	}
 	if !errors.Is(err, proto.ErrEOM) {
 		return nil, err
+	}
+	if len(dir) == 0 {
+		return nil, newMissingArgumentError(cmd, "key", err)
 	}
 	return dir, nil
 }
